@@ -23,7 +23,7 @@ pub static PROP: Prop = Prop {
 };
 
 /// model of delete_nodes: returns the renumbering
-fn model_delete_nodes(l: &mut Lax, ids: &[usize], open: bool) -> Vec<Option<usize>> {
+pub fn model_delete_nodes(l: &mut Lax, ids: &[usize], open: bool) -> Vec<Option<usize>> {
     let n = l.d.nodes.len();
     let mut remove = vec![false; n];
     for &i in ids {
